@@ -263,6 +263,35 @@ def rule_templates(ctx, repo):
         # the chain guard of the builder
         asserts = [norm(n.test) for n in walk_no_nested(b.node) if isinstance(n, ast.Assert)]
         r.note('%s.to_scriptPubKey asserts %s' % (cname, asserts))
+        # a segwit address object always has witness version 0 (from_bytes refuses the others): an assertion in the builder
+        # that fails for version 0 fails for every address
+        from ..rules import equiv as _eqa
+        for n in walk_no_nested(b.node):
+            if isinstance(n, ast.Assert) and 'witver' in norm(n.test):
+                v_ = _eqa(norm(n.test), 'self.witver == 0')
+                if v_ is True:
+                    r.ok('%s:builder-assert' % cname, common.site_of(b, n), 'holds for every address object')
+                elif v_ is False:
+                    r.violated('%s:builder-assert' % cname, common.site_of(b, n), '%s.to_scriptPubKey asserts `%s`; every %s has witness version 0, so the script of a valid address can no longer be built'
+                               % (cname, norm(n.test), cname), sure=True)
+                else:
+                    r.undecided('%s:builder-assert' % cname, common.site_of(b, n), 'assertion `%s` not compared with witver == 0' % norm(n.test))
+        # every arm that builds an address from a slice of the script: the slice has the payload length of the class and
+        # sits where the matcher of that arm puts the program (witness forms: after the 2 or 3 bytes the predicate fixes)
+        for test, call in arms:
+            for a in call.args:
+                if isinstance(a, ast.Subscript) and norm(a.value) == var and isinstance(a.slice, ast.Slice):
+                    lo_, hi_ = repo.fold(a.slice.lower, f.module), repo.fold(a.slice.upper, f.module)
+                    t_ = norm(test)
+                    where = None
+                    if 'is_witness_v0_nested_keyhash' in t_ or 'is_witness_v0_nested_scripthash' in t_:
+                        where = 3
+                    elif 'is_witness_v0_keyhash' in t_ or 'is_witness_v0_scripthash' in t_:
+                        where = 2
+                    if where is not None and isinstance(lo_, int) and isinstance(hi_, int):
+                        want_len = 32 if 'scripthash' in t_ else 20
+                        r.check((lo_, hi_) == (where, where + want_len), '%s:payload:%s' % (cname, t_[:40]), common.site_of(f, a), 'program bytes [%d:%d]' % (where, where + want_len),
+                                '%s.from_scriptPubKey takes `%s` under `%s`; the %d-byte program sits at [%d:%d]' % (cname, norm(a), t_[:50], want_len, where, where + want_len), sure=True)
     # from_scriptPubKey passes the selected chain's version
     for cname, key in (('P2PKHBitcoinAddress', 'PUBKEY_ADDR'), ('P2SHBitcoinAddress', 'SCRIPT_ADDR')):
         ci = repo.get_class(W + cname)
@@ -273,6 +302,20 @@ def rule_templates(ctx, repo):
         d = fb.defaults().get('nVersion')
         r.check(d is not None and norm(d) == 'None', '%s:from_bytes-default' % cname, fb.site, 'default version resolved inside the function',
                 '%s.from_bytes has default nVersion=%s, evaluated once at import' % (cname, norm(d) if d is not None else None))
+        # ... and it IS resolved there: `if nVersion is None: nVersion = <the selected chain's version>`
+        res = [n for n in fb.node.body if isinstance(n, ast.If) and canon_guard(n.test, repo, fb.module) == 'nVersion is None']
+        if len(res) == 1 and len(res[0].body) == 1 and isinstance(res[0].body[0], ast.Assign) and norm(res[0].body[0].targets[0]) == 'nVersion' \
+                and norm(common.resolved(fb, res[0].body[0].value, repo)) == "bitcoin.params.BASE58_PREFIXES['%s']" % key:
+            r.ok('%s:from_bytes-resolves' % cname, common.site_of(fb, res[0]), 'None -> version byte of the selected chain')
+        elif len(res) == 1 and any(isinstance(x, ast.Assign) and norm(x.targets[0]) == 'nVersion' for x in res[0].body):
+            r.undecided('%s:from_bytes-resolves' % cname, common.site_of(fb, res[0]), 'a missing version is replaced by `%s`, which was not recognised as the selected chain\'s %s byte'
+                        % (norm(res[0].body[0].value)[:50] if isinstance(res[0].body[0], ast.Assign) else '?', key))
+        elif any(isinstance(n, ast.If) and canon_guard(n.test, repo, fb.module) in ('nVersion is not None', 'nVersion is None') for n in fb.node.body):
+            n0 = [n for n in fb.node.body if isinstance(n, ast.If) and canon_guard(n.test, repo, fb.module) in ('nVersion is not None', 'nVersion is None')][0]
+            r.violated('%s:from_bytes-resolves' % cname, common.site_of(fb, n0), '%s.from_bytes no longer replaces a missing version by the selected chain\'s %s byte (`if %s: %s`): '
+                       'from_bytes(hash) fails or builds an address with the version None' % (cname, key, norm(n0.test), '; '.join(norm(x) for x in n0.body)[:60]), sure=True)
+        else:
+            r.undecided('%s:from_bytes-resolves' % cname, fb.site, 'how a missing version is resolved was not recognised')
 
 
 def rule_selection(ctx, repo):
